@@ -68,3 +68,13 @@ Print Assumptions C01_reverse_step_is_code.
 Theorem C01_best_access_is_code : forall p k st, best_access_sk G.gen_rev_best_time G.gen_rev_best_ok p k st = best_access p k st.
 Proof. exact best_access_tie. Qed.
 Print Assumptions C01_best_access_is_code.
+
+(* the whole reverse scan (entry slot of the hour index + every step) as the source writes it now *)
+Theorem C01_reverse_scan_is_code : forall d p k, rev_scan_code d p k = rev_scan d p k false.
+Proof. exact rev_scan_tie. Qed.
+Print Assumptions C01_reverse_scan_is_code.
+
+(* the arrival-order comparator (with its reversed trip/sequence tie-break) as the source writes it now *)
+Theorem C01_reverse_sort_is_code : forall a b, cmp_args G.gen_rev_lt a b = rev_lt a b.
+Proof. exact rev_lt_tie. Qed.
+Print Assumptions C01_reverse_sort_is_code.
